@@ -198,6 +198,38 @@ def run(ctx, report):
                         report.fail('C15:segment-raises:%s' % io, 'segment validation raised %s' % io,
                                     {'map': name, 'ref': list(r), 'segment': t})
                         continue
+                    # composites: a REQUIRED component of a composite that is present (and used) draws 'missing' (1) exactly when the
+                    # data gives no value for it - whether the value stops before it, or leaves it empty
+                    import pyx12.segment as _sgm
+                    nd_ = mapser.node_by_ref(m, r)
+                    sg_ = _sgm.Segment(t, '~', '*', ':')
+                    filed = {}
+                    cur_key = None
+                    for ev_ in io.split('|')[1:]:
+                        q_ = ev_.split(',')
+                        if q_[0] == 'A':
+                            cur_key = (int(q_[4]), int(q_[2])) if q_[3] == 'T' else None
+                            if cur_key is not None:
+                                filed.setdefault(cur_key, [])
+                        elif q_[0] == 'E' and cur_key is not None:
+                            filed[cur_key].append(q_[1])
+                    for ci_, c_ in enumerate(nd_.children):
+                        if not c_.is_composite() or c_.usage == 'N' or ci_ >= len(sg_):
+                            continue
+                        comp_ = sg_.get('%02d' % (ci_ + 1))
+                        if comp_ is None or comp_.is_empty() or len(comp_) > len(c_.children):
+                            continue
+                        for si_, sub_ in enumerate(c_.children):
+                            given = si_ < len(comp_) and comp_[si_].get_value() != ''
+                            if sub_.usage != 'R':
+                                continue
+                            report.count('composite-required-component:%s' % ('given' if given else ('empty' if si_ < len(comp_) else 'beyond-the-value')))
+                            has1 = '1' in filed.get((c_.seq, sub_.seq), [])
+                            if has1 == given:
+                                report.fail('C15:composite-required-component:%s' % ('missing-not-reported' if not given else 'reported-though-given'),
+                                            'composite %s of %r: required component %d is %s, code 1 %s' % (
+                                                c_.refdes, t, si_ + 1, 'given' if given else 'not given', 'reported' if has1 else 'not reported'),
+                                            {'map': name, 'ref': list(r), 'segment': t})
                     # DTP: the value (DTP03) is judged against the format NAMED by the qualifier sent (DTP02), not against any
                     # format the map allows there
                     parts_ = t.split('*')
